@@ -12,3 +12,4 @@ import BV.C15.LemmasIdx
 import BV.C15.LemmasMore
 import BV.C15.LemmasBest
 import BV.C15.LemmasMore2
+import BV.C15.LemmasLegacy
